@@ -298,6 +298,7 @@ func (rx *vwRx) feed(pkt []byte) (obs [][]int64, panicked bool) {
 			inl = append(inl, []int64{2, int64(pingMsg)})
 		}
 	}
+	var handoffs []msgHandoff
 	rx.m.msgQueueLock.Lock()
 	for _, q := range []int{1, 0} {
 		l := rx.m.lowPriorityMsgQueue
@@ -306,6 +307,7 @@ func (rx *vwRx) feed(pkt []byte) (obs [][]int64, panicked bool) {
 		}
 		for e := l.Front(); e != nil; e = e.Next() {
 			h := e.Value.(msgHandoff)
+			handoffs = append(handoffs, h)
 			o := []int64{int64(q), int64(h.msgType)}
 			o = append(o, vwB(h.buf)...)
 			obs = append(obs, o)
@@ -313,6 +315,27 @@ func (rx *vwRx) feed(pkt []byte) (obs [][]int64, panicked bool) {
 		l.Init()
 	}
 	rx.m.msgQueueLock.Unlock()
+	// what the packet handler goroutine would do with the queued messages: the handlers behind the queue
+	// must survive whatever body a decodable frame carries
+	for _, h := range handoffs {
+		func() {
+			defer func() {
+				if recover() != nil {
+					panicked = true
+				}
+			}()
+			switch h.msgType {
+			case suspectMsg:
+				rx.m.handleSuspect(h.buf, h.from)
+			case aliveMsg:
+				rx.m.handleAlive(h.buf, h.from)
+			case deadMsg:
+				rx.m.handleDead(h.buf, h.from)
+			case userMsg:
+				rx.m.handleUser(h.buf, h.from)
+			}
+		}()
+	}
 	rx.m.ackLock.Lock()
 	for k, h := range rx.m.ackHandlers {
 		if h.timer != nil {
@@ -740,6 +763,35 @@ func vwHostile(r *vfRng, st *vfStats) []vfCase {
 			b[0] = byte(r.pick([]int{7, 9, 12, 244, 10, 8, 0}))
 		}
 		add(32, b)
+	}
+	// 36: a decodable alive message whose version vector has every length from 0 to 8
+	for L := 0; L <= 8; L++ {
+		vs := []uint8{1, 5, 2, 0, 0, 0, 0, 0}[:L]
+		a := alive{Incarnation: uint32(1 + r.n(5)), Node: fmt.Sprintf("h%d", r.n(4)), Addr: []byte{10, 0, 0, byte(20 + r.n(5))}, Port: 7946, Vsn: vs}
+		ab, err := encode(aliveMsg, &a, false)
+		if err != nil {
+			continue
+		}
+		psm, pstap, _ := vwNode(g.s)
+		pstap.take()
+		if psm.rawSendMsgPacket(Address{Addr: "10.0.0.1:7946", Name: "x"}, nil, ab.Bytes()) != nil {
+			continue
+		}
+		if b, _ := pstap.take(); len(b) == 1 {
+			// what the stdlib says each installed key opens this packet to
+			var extra [][]int64
+			body, lab := vwStripLabel(b[0])
+			if g.r.skip {
+				lab = []byte(g.r.label)
+			}
+			for _, k := range g.r.keys {
+				if e, _, ok := vwAeadEntry(k, body, lab); ok {
+					extra = append(extra, e)
+				}
+			}
+			out = append(out, vwCaseFrom(3, 36, g, g.r, b[0], st, extra))
+			st.OpHist["hostile_class_36"]++
+		}
 	}
 	// compound with lying count / lengths
 	cp := []byte{byte(compoundMsg), byte(r.n(256))}
